@@ -285,29 +285,44 @@ theorem c09_index_range_pos_matches_numpy (r : SliceRange) (n : Nat) (ht : r.ste
   let ⟨ir, h1, h2, h3, _⟩ := indexRange_pos r n ht
   ⟨ir, h1, h2, h3⟩
 
-/-- Full statement for negative steps — "`index_range` returns exactly NumPy's indices for every
-`(start, stop, step < 0, n)`" — is **false** of the code: reversing an empty axis, or starting
-below `-n`, panics (`dim_size - 1 - resolved.start` underflows) where NumPy yields `[]`. -/
-theorem c09_index_range_neg_full_false :
+/-- **C09.T3c** negative step (code after fix `6e0e117`): `index_range` never fails and returns
+exactly NumPy's indices — full strength, every `(start, stop, step < 0, n)`. -/
+theorem c09_index_range_neg_matches_numpy (r : SliceRange) (n : Nat) (ht : r.step < 0) :
+    ∃ ir, r.indexRange n = .ok ir ∧ ir.toList = pyIndices r.start r.stop r.step n ∧
+      ir.steps = pyCount r.start r.stop r.step n :=
+  indexRange_neg r n ht
+
+/-- **C09.T3** both signs: for every `step ≠ 0` the index iterator of `index_range` is
+`a[start:stop:step]`. -/
+theorem c09_index_range_matches_numpy (r : SliceRange) (n : Nat) (h0 : r.step ≠ 0) :
+    ∃ ir, r.indexRange n = .ok ir ∧ ir.toList = pyIndices r.start r.stop r.step n ∧
+      ir.steps = pyCount r.start r.stop r.step n := by
+  by_cases ht : r.step > 0
+  · exact c09_index_range_pos_matches_numpy r n ht
+  · exact indexRange_neg r n (by omega)
+
+/-- The same full statement was **false** of the code before fix `6e0e117` (`indexRangeOld`):
+reversing an empty axis, or starting below `-n`, panicked (`dim_size - 1 - resolved.start`
+underflows) where NumPy yields `[]` (finding `C09-index-range-neg-start-underflow`, fixed). -/
+theorem c09_index_range_old_neg_full_false :
     ¬ ∀ (r : SliceRange) (n : Nat), r.step < 0 →
-      ∃ ir, r.indexRange n = .ok ir ∧ ir.toList = pyIndices r.start r.stop r.step n := by
+      ∃ ir, r.indexRangeOld n = .ok ir ∧ ir.toList = pyIndices r.start r.stop r.step n := by
   intro h
   obtain ⟨ir, h1, _⟩ := h ⟨-1, none, -1⟩ 0 (by decide)
-  have e : (SliceRange.mk (-1) none (-1)).indexRange 0 = .error .panic := by rfl
+  have e : (SliceRange.mk (-1) none (-1)).indexRangeOld 0 = .error .panic := by rfl
   rw [e] at h1
   cases h1
 
-/-- **C09.T3c (partial)** negative step: the code either panics — exactly when NumPy's adjusted
-start is `-1`, i.e. `start < -n` or `n = 0`, in which case NumPy's answer is the empty list — or
-returns exactly NumPy's indices.  Missing for the full statement: the empty result in the panic
-case (finding `C09-index-range-neg-start-underflow`). -/
-theorem c09_index_range_neg_partial (r : SliceRange) (n : Nat) (ht : r.step < 0) :
-    (r.indexRange n = .error .panic ∧ (r.start < -(n : Int) ∨ n = 0) ∧
+/-- What did hold of the pre-fix code: it either panicked — exactly when NumPy's adjusted start
+is `-1`, i.e. `start < -n` or `n = 0`, where NumPy's answer is the empty list — or returned
+exactly NumPy's indices. -/
+theorem c09_index_range_old_neg_partial (r : SliceRange) (n : Nat) (ht : r.step < 0) :
+    (r.indexRangeOld n = .error .panic ∧ (r.start < -(n : Int) ∨ n = 0) ∧
         pyIndices r.start r.stop r.step n = []) ∨
-    (∃ ir, r.indexRange n = .ok ir ∧ ir.toList = pyIndices r.start r.stop r.step n ∧
+    (∃ ir, r.indexRangeOld n = .ok ir ∧ ir.toList = pyIndices r.start r.stop r.step n ∧
       ir.steps = pyCount r.start r.stop r.step n ∧ ¬ (r.start < -(n : Int) ∨ n = 0)) := by
   have hb : (pyBounds r.start r.stop r.step n).1 = pyAdjust r.start r.step n := rfl
-  rcases indexRange_neg r n ht with ⟨h1, h2⟩ | ⟨ir, h1, h2, h3, h4⟩
+  rcases indexRangeOld_neg r n ht with ⟨h1, h2⟩ | ⟨ir, h1, h2, h3, h4⟩
   · left
     refine ⟨h1, (neg_start_before _ _ _ ht).mp (hb ▸ h2), ?_⟩
     have hR := pyBounds_neg_range r n ht
@@ -322,29 +337,31 @@ theorem c09_index_range_neg_partial (r : SliceRange) (n : Nat) (ht : r.step < 0)
   · right
     exact ⟨ir, h1, h2, h3, fun h => h4 (hb ▸ (neg_start_before _ _ _ ht).mpr h)⟩
 
-/-- Non-vacuity of both branches. -/
+/-- Non-vacuity: a reversed stepped range, and the formerly panicking input on old and new code. -/
 example : (SliceRange.mk (-1) (some (-6)) (-2)).indexRange 5 = .ok ⟨4, -1, -2⟩ ∧
     (IndexRange.mk 4 (-1) (-2)).toList = [4, 2, 0] ∧ pyIndices (-1) (some (-6)) (-2) 5 = [4, 2, 0] ∧
-    (SliceRange.mk (-4) none (-1)).indexRange 3 = .error .panic ∧ pyIndices (-4) none (-1) 3 = [] := by
-  refine ⟨by rfl, by rfl, by rfl, by rfl, by rfl⟩
+    (SliceRange.mk (-4) none (-1)).indexRangeOld 3 = .error .panic ∧
+    (SliceRange.mk (-4) none (-1)).indexRange 3 = .ok ⟨0, 0, -1⟩ ∧
+    (IndexRange.mk 0 0 (-1)).toList = [] ∧ pyIndices (-4) none (-1) 3 = [] := by
+  refine ⟨by rfl, by rfl, by rfl, by rfl, by rfl, by rfl, by rfl⟩
 
-/-! ## `slice_copy` deviates from the reference (findings) -/
+/-! ## `slice_copy`: the pre-fix code deviates from the reference (fixed findings) -/
 
 def toRefItem : SliceItem → NArr.Item
   | .index i => .index i
   | .range r => .range r.start r.stop r.step
 
-/-- Full statement "`slice_copy` yields what NumPy's `a[items].copy()` yields, or panics" is
-**false** of the code: on the slow path (negative step or clamped bound) the axes that have no
-slice item are dropped from the result shape.  Witness: a contiguous 3×1 tensor sliced with
-`[::-2]` comes back with shape `[2]` instead of `[2, 1]`
-(finding `C09-slice-copy-drops-unsliced-axes`). -/
-theorem c09_slice_copy_full_false :
+/-- Full statement "`slice_copy` yields what NumPy's `a[items].copy()` yields, or panics" was
+**false** of the code before fix `64c556f` (`sliceCopyOld`): on the slow path (negative step or
+clamped bound) the axes that have no slice item were dropped from the result shape.  Witness: a
+contiguous 3×1 tensor sliced with `[::-2]` came back with shape `[2]` instead of `[2, 1]`
+(finding `C09-slice-copy-drops-unsliced-axes`, fixed). -/
+theorem c09_slice_copy_old_full_false :
     ¬ ∀ (t : TState) (items : List SliceItem) (A : NArr Nat),
-      sliceCopy t items = .ok (TState.ofArr A) →
+      sliceCopyOld t items = .ok (TState.ofArr A) →
       NArr.sliceCopy (items.map toRefItem) t.arr = .ok A := by
   intro h
-  have e1 : sliceCopy ⟨[0, 1, 2], ⟨0, 3, [(3, 1), (1, 1)]⟩⟩ [.range ⟨-1, none, -2⟩] =
+  have e1 : sliceCopyOld ⟨[0, 1, 2], ⟨0, 3, [(3, 1), (1, 1)]⟩⟩ [.range ⟨-1, none, -2⟩] =
       .ok (TState.ofArr ⟨[2], [2, 0]⟩) := by rfl
   have e2 : NArr.sliceCopy ([SliceItem.range ⟨-1, none, -2⟩].map toRefItem)
       (TState.arr ⟨[0, 1, 2], ⟨0, 3, [(3, 1), (1, 1)]⟩⟩) = .ok ⟨[2, 1], [2, 0]⟩ := by rfl
@@ -354,5 +371,24 @@ theorem c09_slice_copy_full_false :
   injection h2 with h3 _
   revert h3
   decide
+
+/-- Second pre-fix witness (finding `C09-slice-copy-accepts-bad-index-when-empty`, fixed by
+`bb4fae9`): on a 2×0 tensor `slice_copy((2, 0..))` returned an empty tensor although index 2 is
+out of range (the reference, like NumPy, rejects it). -/
+theorem c09_slice_copy_old_accepts_bad_index :
+    sliceCopyOld ⟨[], ⟨0, 0, [(2, 1), (0, 2)]⟩⟩ [.index 2, .range ⟨0, none, 1⟩] =
+      .ok (TState.ofArr ⟨[0], []⟩) ∧
+    NArr.sliceCopy ([SliceItem.index 2, SliceItem.range ⟨0, none, 1⟩].map toRefItem)
+      (TState.arr ⟨[], ⟨0, 0, [(2, 1), (0, 2)]⟩⟩) = .error .panic :=
+  ⟨by rfl, by rfl⟩
+
+/-- The fixed code on the same two inputs (evaluated examples, i.e. tests — the general
+`slice_copy` = reference statement for the fixed model is not proved yet; it is tied to the code
+and to the naive reference by the correspondence check only). -/
+theorem c09_slice_copy_fixed_witnesses :
+    sliceCopy ⟨[0, 1, 2], ⟨0, 3, [(3, 1), (1, 1)]⟩⟩ [.range ⟨-1, none, -2⟩] =
+      .ok (TState.ofArr ⟨[2, 1], [2, 0]⟩) ∧
+    sliceCopy ⟨[], ⟨0, 0, [(2, 1), (0, 2)]⟩⟩ [.index 2, .range ⟨0, none, 1⟩] = .error .panic :=
+  ⟨by rfl, by rfl⟩
 
 end RtenVerif.Layout
